@@ -256,6 +256,8 @@ class SymMath:
     """Stands in for the `math` module inside traced modules."""
 
     def __getattr__(self, n):
+        if n == "pi" and CTX is not None:
+            return Sym("pi")      # symbolic while tracing, the float otherwise
         return getattr(math, n)
 
     @staticmethod
@@ -365,6 +367,8 @@ def show(e):
             return "(-%s)" % show(e.args[0])
         if e.op == "powi":
             return "(%s^%d)" % (show(e.args[0]), e.args[1])
+        if e.op == "pi":
+            return "pi"
         if e.op in ("sqrt", "cos", "acos", "sin", "abs"):
             return "%s(%s)" % (e.op, show(e.args[0]))
         if e.op in ("max", "min", "atan2", "rpow"):
@@ -454,6 +458,8 @@ def evaluate(e, env, mode="ideal", funcs=None, memo=None, record=None):
                 if b == 0:
                     raise EvalError("division by zero")
                 r = a / b
+        elif op == "pi":
+            r = Fraction(math.pi)
         elif op in ("sqrt", "cos", "sin", "acos"):
             r = call(op, go(x.args[0]))
         elif op in ("atan2", "rpow"):
